@@ -65,6 +65,20 @@ S = {
  "C14-4": ("C14", "persisterLoop closes its snapshot twice on the ordinary error path", "a persist failure while the root holds a persisted segment, then any use of that segment"),
  "C19-3": ("C19", "plan() removes the fully deleted segments from the wrong slice, so they stay eligible", "a segment with live size 0 while the planner is over budget"),
  "C19-4": ("C19", "CalcBudget truncates TierGrowth before multiplying", "a non-integral TierGrowth (below 2: tiers never grow)"),
+ "C08-3": ("C08", "loadSnapshot builds segment offsets from live counts instead of physical counts", "a reopened (or restored) index where a non-last segment has a pending deletion followed by a live document"),
+ "C08-4": ("C08", "newDisjunctionSearcher lets min-should >= 2 through to the unadorned bitmap optimisation", "score none, default optimisations, a boolean with min-should k >= 2 over more than k optimisable clauses"),
+ "C09-3": ("C09", "finalizeResults reverses a search-before page with (len-1)/2 swaps", "a Before() page with an even number of hits"),
+ "C09-4": ("C09", "Sort.copy rebuilds the sort through its constructor and loses missingFirst", "Before() paging on a missing-first key with matches that lack the value"),
+ "C10-3": ("C10", "NewNumericRangeSearcher no longer maps +-Inf to the int64 extremes", "an unbounded date range and a date within ~52 days of the int64 nanosecond limits"),
+ "C10-4": ("C10", "exclusive ends stepped with math.Nextafter in float space (the two zeros are one value there)", "an exclusive end at -0/+0, e.g. a date range ending exactly at the epoch with a document 1 ns before it"),
+ "C16-3": ("C16", "WeightedAvgCalculator adds the weight once per document instead of once per value", "a matched document with several values (or none) in the field"),
+ "C16-4": ("C16", "DateRangeCalculator treats the end bound as inclusive", "a matched document whose date equals a range end to the nanosecond"),
+ "C17-3": ("C17", "BM25Scorer.Explain adds the boost child only for boost > 1", "explanations on and a fractional boost such as 0.5"),
+ "C17-4": ("C17", "CompositeSumScorer.ExplainComposite builds its child list in a buffer shared by all explanations of the scorer", "explanations on, a compound query, at least two hits, looking at an earlier hit after a later one was scored"),
+ "C18-3": ("C18", "cjk width filter: combining-mark range widened past its lookup tables", "U+30FE/U+30FF followed by a halfwidth sound mark"),
+ "C18-4": ("C18", "shingle filter: a shingle ending in a filler keeps End = 0", "shingles behind a stop/length filter that leaves position gaps, first member not at offset 0"),
+ "C20-3": ("C20", "HTML formatter skips overlapping locations relative to the fragment start instead of the current position", "two overlapping locations in one fragment that MergeOverlapping left apart"),
+ "C20-4": ("C20", "fragment scorer counts terms that only start inside the fragment", "a matched token longer than the fragment size followed by one that fits"),
 }
 for name, (prop, what, needs) in sorted(S.items()):
     d = os.path.join(ROOT, 'seeded', name)
